@@ -127,7 +127,7 @@ def run_case(case):
     names["main"] = len(case["progs"])
     return dict(events=to_events(sc.log_entries, names), outs=[outs.get(i, []) for i in range(len(case["progs"]) + 1)],
                 deadlock=sc.deadlock, step_limit=sc.step_limit, exc=exc, main_done=main.finished and sc.main_exc is None,
-                final=final, order=op_order(sc.log_entries, names))
+                final=final, order=op_order(sc.log_entries, names), cand_trace=sc.cand_trace)
 
 
 def op_order(log, names):
@@ -275,9 +275,12 @@ class P(Prop):
             for pol in POLICIES:
                 for sd in range(3 if tier == "quick" else 30):
                     yield dict(b, final=[[2], [3], [4]] + [[1, g] for g in range(mx)], seed=sd, policy=pol)
+        for b in base:
+            for k in range(30 if tier == "quick" else 600):
+                yield dict(b, final=[[2], [3], [4]] + [[1, g] for g in range(5)], seed=0, policy="np", pb1=k)
 
     def impl(self, case):
-        return run_case(case)
+        return S.pb_run(case, run_case)
 
     def to_model(self, case):
         return self.to_model2(case, None)
